@@ -124,7 +124,12 @@ IdPool == << FillT("seeded", 0, 0), Lit(<< 48 >>), Lit(<< 54, 50, 48, 56, 57, 51
              FillT("zero", 8, 0), FillT("ramp", 128, 128), Lit(<< 255, 254, 192, 128, 237, 160, 128 >>), FillT("seeded", 255, 7) >>
 \* identities whose first / last octets are white space, NUL, >= 0x80, or which are all letters: S = "EAP-AKA'" | Identity takes the
 \* identity as it is (C16: "any octets, not only text")
-EdgeIds == [q \in 1..(2 * Len(EdgeClasses)) |-> Lit(Edge(EdgeClasses[((q - 1) % Len(EdgeClasses)) + 1], IF q <= Len(EdgeClasses) THEN 9 ELSE 2, Seed + q))]
+\* ... and identities that COLLIDE WITH WHAT THE FUNCTION ITSELF PUTS IN FRONT: the label "EAP-AKA'" alone, the label followed by more,
+\* the label twice, the label of plain EAP-AKA, the label in another case, a single quote
+Label == << 69, 65, 80, 45, 65, 75, 65, 39 >>
+LabelIds == << Lit(Label), Lit(Label \o << 54, 50, 48 >>), Lit(Label \o Label), Lit(SubSeq(Label, 1, 7)), Lit(<< 101, 97, 112, 45, 97, 107, 97, 39 >>), Lit(<< 39 >>),
+               Lit(Label \o << 0 >>), Lit(<< 0 >> \o Label) >>
+EdgeIds == [q \in 1..(2 * Len(EdgeClasses)) |-> Lit(Edge(EdgeClasses[((q - 1) % Len(EdgeClasses)) + 1], IF q <= Len(EdgeClasses) THEN 9 ELSE 2, Seed + q))] \o LabelIds
 IdAt(c) == IF c <= Len(IdPool) THEN IdPool[c] ELSE EdgeIds[c - Len(IdPool)]
 PrfVector(a, b, c) ==
   LET ik == FillT("seeded", KeyLens16[a], Seed + 1) ck == FillT("ramp", KeyLens16[b], Seed + 2) id == IdAt(c)
